@@ -31,12 +31,12 @@ theorem editAt_value (s : Nat) (g : List HTree → List HTree) (t : HTree) :
   | node h v ks => rw [editAt_node]; split <;> rfl
 
 theorem editAt_of_not_mem {s : Nat} {g : List HTree → List HTree} (t : HTree) (hn : s ∉ handles t) :
-    HTree.editAt s g t = t := mapAt_of_not_mem t hn
+    HTree.editAt s g t = t := fs_mapAt_of_not_mem t hn
 
 theorem map_editAt_of_not_mem {s : Nat} {g : List HTree → List HTree} (ks : List HTree)
     (hn : s ∉ handlesList ks) : ks.map (HTree.editAt s g) = ks := by
   rw [editAt_def, ← mapAtList_eq_map]
-  exact mapAtList_of_not_mem ks hn
+  exact fs_mapAtList_of_not_mem ks hn
 
 /-! ### Composition at one site -/
 
